@@ -27,6 +27,8 @@ pub enum AOp {
     /// `update_file_by_uri(uri, None)` (closed, not on disk)
     Close(usize),
     Reindex,
+    /// one `update_files_by_uri` batch submitting variant 0 of these files
+    Batch(Vec<usize>),
 }
 
 #[derive(Clone, Debug)]
@@ -58,6 +60,7 @@ impl WsCase {
                 AOp::Remove(i) => json!(["remove", i]),
                 AOp::Close(i) => json!(["close", i]),
                 AOp::Reindex => json!(["reindex"]),
+                AOp::Batch(v) => json!(["batch", v]),
             }).collect::<Vec<_>>(),
         })
     }
@@ -77,6 +80,7 @@ impl WsCase {
                 "remove" => AOp::Remove(n(1)),
                 "close" => AOp::Close(n(1)),
                 "reindex" => AOp::Reindex,
+                "batch" => AOp::Batch(a.get(1).and_then(|x| x.as_array()).map(|v| v.iter().filter_map(|x| x.as_u64().map(|x| x as usize)).collect()).unwrap_or_default()),
                 _ => return None,
             });
         }
@@ -145,6 +149,13 @@ impl Sim {
                 }
             }
             AOp::Reindex => self.a.reindex(),
+            AOp::Batch(v) => {
+                let batch: Vec<(Uri, Option<String>)> = v.iter().map(|&i| (uri_of(&c.files[i].0), Some(c.files[i].1[0].clone()))).collect();
+                for &i in v {
+                    self.current[i] = Some(c.files[i].1[0].clone());
+                }
+                self.a.update_files_by_uri(batch);
+            }
         }
     }
 }
@@ -262,6 +273,25 @@ pub fn dump(a: &EmmyLuaAnalysis, queries: &[String]) -> BTreeMap<String, Vec<Str
         .collect();
     gs.sort();
     out.insert("globals".into(), gs);
+    // members recorded for every global path (`G`, `G.a`, …): count and (key, file) of every item
+    let mut gm = Vec::new();
+    let mut gnames: BTreeSet<String> = BTreeSet::new();
+    for id in db.get_global_index().get_all_global_decl_ids() {
+        if let Some(d) = db.get_decl_index().get_decl(&id) {
+            gnames.insert(d.get_name().to_string());
+        }
+    }
+    for n in queries.iter().filter(|q| q.starts_with('G')) {
+        gnames.insert(n.clone());
+    }
+    for n in gnames {
+        let owner = LuaMemberOwner::GlobalPath(emmylua_code_analysis::GlobalId::new(&n));
+        let len = db.get_member_index().get_member_len(&owner);
+        let mut ms: Vec<String> = db.get_member_index().get_members(&owner).unwrap_or_default().iter().map(|m| format!("{:?}@{}", m.get_key(), file_name(a, m.get_file_id()))).collect();
+        ms.sort();
+        gm.push(format!("{n} len={len} members=[{}]", ms.join(",")));
+    }
+    out.insert("global-members".into(), gm);
     // types with locations, supers, members, docs
     let mut ts = Vec::new();
     for d in db.get_type_index().get_all_types() {
@@ -442,21 +472,22 @@ pub fn symptom_of(section: &str, a: &Option<String>, b: &Option<String>) -> Stri
     if section == "globals" {
         return "globals".into();
     }
+    if section == "global-members" {
+        return "global-member-list".into();
+    }
     format!("section:{section}")
 }
 
-/// symptom kinds of grown entry counts (`"k: a -> b; …"` as produced by `grown_sizes`)
+/// symptom kinds of grown entry counts (`"k: a -> b; …"` as produced by `grown_sizes`): `count:<key>+<delta>`
+/// (`count:property` for any property.* key)
 pub fn count_symptoms(grown: &str) -> Vec<String> {
     grown
         .split("; ")
         .map(|e| {
-            let k = e.split(':').next().unwrap_or("");
-            let idx = k.split('.').next().unwrap_or("");
-            match idx {
-                "property" => "count:property".to_string(),
-                "member" => "count:member".to_string(),
-                _ => format!("count:{k}"),
-            }
+            let (k, rest) = e.split_once(": ").unwrap_or((e, ""));
+            let nums: Vec<i64> = rest.split(" -> ").filter_map(|x| x.trim().parse().ok()).collect();
+            let delta = if nums.len() == 2 { nums[1] - nums[0] } else { 0 };
+            if k.starts_with("property.") { "count:property".to_string() } else { format!("count:{k}+{delta}") }
         })
         .collect()
 }
@@ -552,11 +583,32 @@ pub fn gen_files_probe(rng: &mut Rng) -> (Vec<(String, Vec<String>)>, String) {
         })
         .collect();
     let mods: Vec<String> = names.iter().map(|n| mod_name(n)).collect();
+    // registry layout: one file declares the global table `Gt = { … }`, the other files contribute its members
+    // (`function Gt.f() end`, `Gt.x = 1`, nested `Gt.a.b = …`) or read them
+    let registry_layout = rng.chance(1, 3);
+    let decl_file = rng.below(n);
     let files = (0..n)
         .map(|k| {
             let module = parent_layout || rng.chance(1, 2);
             let nv = rng.range(2, 3);
-            let vs = (0..nv).map(|_| gen_text(rng, k, n, module, disjoint, &mods)).collect();
+            let vs: Vec<String> = (0..nv)
+                .map(|v| {
+                    let mut t = gen_text(rng, k, n, module && !registry_layout, disjoint, &mods);
+                    if registry_layout {
+                        let extra = if k == decl_file {
+                            if v == 0 { format!("Gt = {{ name = \"n{k}\", a = {{}} }}\n\n") } else { format!("Gt = {{ name = \"m{k}\" }}\n\n") }
+                        } else {
+                            match (k + v) % 3 {
+                                0 => format!("function Gt.extra{k}() end\nGt.version{k} = {k}\n\n"),
+                                1 => format!("Gt.a.b{k} = {k}\nfunction Gt.a.g{k}() return {k} end\n\n"),
+                                _ => format!("print(Gt.name, Gt.extra{o}, Gt.version{o}, Gt.a.b{o})\n\n", o = (k + 1) % n),
+                            }
+                        };
+                        t = format!("{extra}{t}");
+                    }
+                    t
+                })
+                .collect();
             (names[k].clone(), vs)
         })
         .collect();
@@ -574,6 +626,8 @@ pub fn queries(files: &[(String, Vec<String>)]) -> Vec<String> {
         }
     }
     q.push("p".into());
+    q.push("Gt".into());
+    q.push("Gt.a".into());
     q.push("lib.f0".into());
     q.push("nope".into());
     q
